@@ -191,5 +191,26 @@ TEXTS = {
                  "pure-ASCII input also yield Unchanged."),
         "technique": "Coq proof (encoder/decoder/validator algebra, BOM stripping byte-level vs scalar-level) + proved decision procedure on real observations + exhaustive bounded differential testing",
     },
+    "C07": {
+        "text": ("Coq theorems over executable models of recommended_registry_package_url(_to_nv) (strings as code "
+                 "point lists, with Version::parse_standard modelled down to the monch combinators), "
+                 "normalized_export_name, JsrPackageVersionInfo::export/exports and the PackageSpecifiers table as a "
+                 "state machine. Proved for all inputs: parse(print v) = v and every accepted text yields a printable "
+                 "version; to_nv(pkg_url(nv) ++ path) = nv for every plain http(s) directory registry URL, scope/name "
+                 "package and version, hence a URL under one package is never attributed to another; outside four input "
+                 "classes the converted URL lies under the package it is attributed to; exports() lists exactly what "
+                 "export() resolves (last repeated key wins, non-strings ignored); for every operation history the table "
+                 "refines a history specification (last add_nv wins up to Ord, first-insertion-ordered distinct versions "
+                 "per name, export/dependency sets per ensured package) and stops exactly at the first add_dependency/"
+                 "add_export on a package that was never ensured. The unrestricted no-misattribution statement is refuted "
+                 "by four witnesses confirmed on the real code (known findings F-C07a-d). Partial: the builder-level part "
+                 "of C07 is not in this check."),
+        "design_ref": "DESIGN.md section 5 C07",
+        "note": ("Trusted: Coq kernel; extraction; harness abstraction (strings to code points, interning of requirements / "
+                 "name@versions by the real Eq with Ord classes from the real cmp). Url::join outside the modelled domain and "
+                 "serde_json's reading of the manifest text are data from the real crates. Five of the table's mutators are "
+                 "pub(crate) and are not exercised on the real code by this check."),
+        "technique": "Coq proof (string-level parser inversion, refinement of a state machine to a history specification by invariant) + refutation witnesses + extracted-model differential testing incl. exhaustive short version texts",
+    },
 }
 NOT_YET = {}
